@@ -318,6 +318,15 @@ Proof. rewrite !ncmp_lex. apply lexcmp_antisym. Qed.
 Lemma ncmp_eq_key a b : ncmp a b = Eq -> n_key a = n_key b.
 Proof. rewrite ncmp_lex. intro H. apply lexcmp_eq in H. unfold nkey in H. congruence. Qed.
 
+Lemma ncmp_total_preorder :
+  (forall a, ncmp a a = Eq) /\
+  (forall a b, ncmp b a = CompOpp (ncmp a b)) /\
+  (forall a b c, ncmp a b <> Gt -> ncmp b c <> Gt -> ncmp a c <> Gt).
+Proof.
+  split; [exact ncmp_refl|]. split; [exact ncmp_antisym|].
+  intros a b c. rewrite !ncmp_lex. apply lexcmp_le_trans.
+Qed.
+
 (** on a list ordered by the comparator, "below the query" holds on a prefix *)
 Lemma wsorted_mono v k l : wsorted l -> mono (node_lt v k) l.
 Proof.
